@@ -87,3 +87,7 @@ Theorem pipeline_config_frozen_from_init_l : forall ops1 ops2 j p,
   po_edges (obs_p s2 p) = po_edges (obs_p s1 p) /\ po_name (obs_p s2 p) = po_name (obs_p s1 p) /\
   po_aliases (obs_p s2 p) = po_aliases (obs_p s1 p) /\ po_default (obs_p s2 p) = po_default (obs_p s1 p).
 Proof. intros ops1 ops2 j p H. cbv zeta. apply pipeline_config_frozen_l; [apply ownership_l; apply init_inv|exact H]. Qed.
+
+(* the scan of every component __call__ (Gen/C14_alias.v) finds no statement writing through an ItemList parameter *)
+Lemma no_itemlist_writes_l : itemlist_param_writes = [].
+Proof. reflexivity. Qed.
